@@ -52,16 +52,20 @@ impl InstructionGenerator {
             upper_bound,
             counter_var_name.expression_type(),
         );
-        // A to C (upper bound to C)
-        self.push(Instruction::CopyAToC, pos);
         // load the step expression
         match step {
             Some(s) => {
                 let step_pos = s.pos();
+                // keep the upper bound on the value stack while the step is evaluated,
+                // because a function called by the step expression is free to use the registers
+                self.push(Instruction::PushAToValueStack, pos);
                 // load step to A
                 self.generate_expression_instructions(s);
                 // A to D (step is in D)
                 self.push(Instruction::CopyAToD, pos);
+                // upper bound to C
+                self.push(Instruction::PopValueStackIntoA, pos);
+                self.push(Instruction::CopyAToC, pos);
                 // is step = 0 ?
                 self.push_load(Variant::VInteger(0), pos);
                 self.push(Instruction::CopyAToB, pos);
@@ -74,6 +78,8 @@ impl InstructionGenerator {
                 self.generate_for_loop_body_instructions(&counter_var_name, statements, false, pos);
             }
             None => {
+                // A to C (upper bound to C)
+                self.push(Instruction::CopyAToC, pos);
                 self.push_load(Variant::VInteger(1), pos);
                 // A to D (step is in D)
                 self.push(Instruction::CopyAToD, pos);
